@@ -413,7 +413,7 @@ std::string vh::execute(toks_t& toks, std::string& aug)
     }
     check_size(P.x0, x0mode == 1 ? P.n : 0, "x0");
     const auto pars = toks.fs();
-    if (!pars.empty() && pars.size() != 6)
+    if (!pars.empty() && pars.size() != 6 && pars.size() != 8)
     {
         throw bad_op("solver parameters");
     }
@@ -431,6 +431,12 @@ std::string vh::execute(toks_t& toks, std::string& aug)
         for (size_t i = 0; i < 6; ++i)
         {
             solver.parameter(names[i]) = pars[i];
+        }
+        if (pars.size() == 8)
+        {
+            // the two iteration budgets (the model reads them back from the `T` section like every other parameter)
+            solver.parameter("solver::max_iters")         = static_cast<int64_t>(pars[6]);
+            solver.parameter("solver::max_lsearch_iters") = static_cast<int64_t>(pars[7]);
         }
     }
     dvec       x0_used;
